@@ -10,7 +10,9 @@ import (
 	"encoding/hex"
 	"encoding/json"
 	"fmt"
+	"io/fs"
 	"os"
+	"path/filepath"
 	"sort"
 	"time"
 
@@ -134,6 +136,8 @@ func (n *Node) Restart() {
 		panic(err)
 	}
 	_ = os.MkdirAll(dir+"/data", 0o755)
+	// the uploaded contract code lives in files beside the database, as on a real node's disk: it survives the crash
+	copyTree(n.dir, dir, "exclusive.lock")
 	n.oldDirs = append(n.oldDirs, n.dir)
 	n.dir = dir
 	n.App = newApp(n.dir, n.db)
@@ -321,4 +325,27 @@ func DiffDigests(a, b map[string]string) []string {
 	}
 	sort.Strings(d)
 	return d
+}
+
+// copyTree copies every regular file under src to the same relative path under dst, except files named skip.
+func copyTree(src, dst, skip string) {
+	_ = filepath.WalkDir(src, func(p string, d fs.DirEntry, err error) error {
+		if err != nil {
+			return nil
+		}
+		rel, _ := filepath.Rel(src, p)
+		if d.IsDir() {
+			_ = os.MkdirAll(filepath.Join(dst, rel), 0o755)
+			return nil
+		}
+		if d.Name() == skip || !d.Type().IsRegular() {
+			return nil
+		}
+		bz, err := os.ReadFile(p)
+		if err != nil {
+			return nil
+		}
+		_ = os.WriteFile(filepath.Join(dst, rel), bz, 0o644)
+		return nil
+	})
 }
